@@ -13,3 +13,20 @@ func (p *BruteForceProtector) VerifShiftBanExpiry(ip string, d time.Duration) {
 		r.ExpiresAt = r.ExpiresAt.Add(-d)
 	}
 }
+
+// VerifAgeBan: d passes for the ban record of one address (both BannedAt and the deadline move d into the past), but only if
+// the ban then still has more than `keep` to run — so a ban in force stays in force.  Reports whether it aged the record.
+func (p *BruteForceProtector) VerifAgeBan(ip string, d, keep time.Duration) bool {
+	p.banMu.Lock()
+	defer p.banMu.Unlock()
+	r, ok := p.bannedIPs[ip]
+	if !ok || r.ExpiresAt.IsZero() || time.Until(r.ExpiresAt) < d+keep {
+		return false
+	}
+	r.BannedAt = r.BannedAt.Add(-d)
+	r.ExpiresAt = r.ExpiresAt.Add(-d)
+	return true
+}
+
+// VerifCleanup runs the body of the one-minute cleanup ticker now.
+func (p *BruteForceProtector) VerifCleanup() { p.cleanup() }
